@@ -181,6 +181,10 @@ type PatternRouterWatcher struct {
 	logger bridgelog.Logger
 	target string
 	closed atomic.Bool
+
+	// mu synchronizes UpdateDesc with Close, so that an update which has already passed the closed check
+	// cannot re-add the target's routes after Close has removed them.
+	mu sync.Mutex
 }
 
 // UpdateDesc updates the description of the target this watcher is watching.
@@ -193,6 +197,9 @@ type PatternRouterWatcher struct {
 // UpdateDesc returns only when the routing state has been completely updated on the router,
 // which should be used to synchronize the target description update polling/watching logic.
 func (prw *PatternRouterWatcher) UpdateDesc(desc *bridgedesc.Target) {
+	prw.mu.Lock()
+	defer prw.mu.Unlock()
+
 	if prw.closed.Load() {
 		return
 	}
@@ -221,6 +228,10 @@ func (prw *PatternRouterWatcher) Close() {
 	}
 
 	verifYield("pattern:close:after-flip")
+
+	// Wait for an in-flight UpdateDesc, which might have already passed the closed check, to finish.
+	prw.mu.Lock()
+	defer prw.mu.Unlock()
 
 	// Fully remove the target's routes, only then mark the watcher as closed.
 	prw.pr.routes.removeTarget(prw.target)
